@@ -829,13 +829,13 @@ Qed.
 
 (* C15 with Floats, String sink and source, at any start position *)
 Theorem seq_roundtrip_string : forall cf its pre rest sits vs vs', config_ok cf ->
-  seq_ok cf its rest sits vs vs' ->
+  seq_ok cf its rest sits vs vs' -> lits_ok cf its rest ->
   scan_str cf (fst (print_to_string cf pre (length pre) its) ++ rest) (length pre) sits []
   = SOk vs' (snd (print_to_string cf pre (length pre) its)).
 Proof.
-  intros cf its pre rest sits vs vs' Hcf H. unfold print_to_string. cbn [fst snd].
+  intros cf its pre rest sits vs vs' Hcf H Hl. unfold print_to_string. cbn [fst snd].
   rewrite firstn_all, <- app_assoc.
-  now rewrite (scan_str_seq cf its rest _ _ (seq_ok_reads _ _ _ _ _ _ Hcf H)).
+  now rewrite (scan_str_seq cf its rest _ _ (ok_pct _ Hcf) (seq_ok_reads _ _ _ _ _ _ Hcf H) Hl).
 Qed.
 
 Theorem seq_roundtrip_file : forall cf its old rest sits vs vs', config_ok cf ->
@@ -845,7 +845,7 @@ Theorem seq_roundtrip_file : forall cf its old rest sits vs vs', config_ok cf ->
 Proof.
   intros cf its old rest sits vs vs' Hcf H Hl. unfold print_to_file. cbn [fst snd].
   rewrite <- app_assoc, skipn_length_app.
-  now rewrite (scan_file_seq cf its rest _ _ (seq_ok_reads _ _ _ _ _ _ Hcf H) Hl).
+  now rewrite (scan_file_seq cf its rest _ _ (ok_pct _ Hcf) (seq_ok_reads _ _ _ _ _ _ Hcf H) Hl).
 Qed.
 
 (* what seq_ok says about the values: position-wise equal, Floats within the printed precision *)
@@ -914,14 +914,15 @@ Proof.
 Qed.
 
 Theorem wf_seq_roundtrip_string : forall cf its sits pre rest, config_ok_float cf -> wf_seq cf its sits rest ->
+  lits_ok cf its rest ->
   exists vs',
     scan_str cf (fst (print_to_string cf pre (length pre) its) ++ rest) (length pre) sits []
     = SOk vs' (snd (print_to_string cf pre (length pre) its))
     /\ Forall2 value_close (values_of its) vs'.
 Proof.
-  intros cf its sits pre rest Hcf H. destruct (wf_seq_ok _ _ _ _ Hcf H) as [vs' Hs].
+  intros cf its sits pre rest Hcf H Hl. destruct (wf_seq_ok _ _ _ _ Hcf H) as [vs' Hs].
   exists vs'. split; [|now apply (seq_ok_values _ _ _ _ _ _ Hs)].
-  apply (seq_roundtrip_string cf its pre rest sits _ vs' (okf_base _ Hcf) Hs).
+  apply (seq_roundtrip_string cf its pre rest sits _ vs' (okf_base _ Hcf) Hs Hl).
 Qed.
 
 Theorem wf_seq_roundtrip_file : forall cf its sits old rest, config_ok_float cf -> wf_seq cf its sits rest ->
@@ -939,7 +940,8 @@ Qed.
 (* D8: read through "%f" (binary32) the text of 123456789.123456 comes back as 123456792.0 *)
 Lemma float_look_single_refuted :
   exists b b', decode_double b <> None /\
-    scan_num {| cf_show_esc := []; cf_look_esc := []; cf_look_cont := true; cf_float_look_long := false; cf_int_signext := true |}
+    scan_num {| cf_show_esc := []; cf_look_esc := []; cf_look_cont := true; cf_float_look_long := false; cf_int_signext := true;
+                cf_lit_measure := true; cf_pct_measure := true |}
       (spec_f false) (print_num (spec_f false) (VFloat b)) = Some (VFloat b', 16%nat)
     /\ b = 4728057454355442549 /\ b' = 4728057454548484096.
 Proof. exists 4728057454355442549, 4728057454548484096. split; [vm_compute; discriminate|]. split; [vm_compute; reflexivity|split; reflexivity]. Qed.
